@@ -137,6 +137,11 @@ def decode_junk(v: Any) -> Any:
         if set(v) == {"__pow10__"}:
             n = v["__pow10__"]
             return 10 ** n if n >= 0 else -(10 ** -n)
+        if set(v) == {"__deep_list__"}:  # [[[...[1]...]]]
+            out: Any = [1]
+            for _ in range(v["__deep_list__"]):
+                out = [out]
+            return out
         return {k: decode_junk(x) for k, x in v.items()}
     if isinstance(v, list):
         return [decode_junk(x) for x in v]
@@ -156,6 +161,31 @@ EXTRA_SEEDS += [
     "{% tablerow i in (-99999999999999999999..99999999999999999999) limit: 2 %}{{ i }}{% endtablerow %}",
     "{{ (1..99999999999999999999) | size }}{{ (1..99999999999999999999) | last }}",
     "{% assign r = (1..99999999999999999999) %}{% render 'b', y: r %}{% cycle r, r %}{{ r | join: ',' | size }}",
+]
+
+
+EXTRA_SEEDS += [
+    "{% assign r = (1..1e30) %}{{ r.size }}{{ r.first }}{{ r.last }}", "{% include 'a' with (1..1e30) %}",
+    "{% assign x = 1e4299 | times: 10 %}{{ (1..x) }}{% echo (1..x) %}{% cycle (1..x) %}{{ '${(1..x)}' }}",
+    "{{ '<![x]>' | strip_html }}{{ '<![foo[ bar ]]>' | strip_html }}{{ '<![ x y ]>' | strip_html }}{{ '<!x' | strip_html }}",
+    "{% macro m %}{% extends 'a' %}{% endmacro %}{% call m %}",
+    "{% assign translations = 1 %}{% translate %}Hi{% endtranslate %}",
+    "{% assign x = 1e4299 | times: 10 %}{% translate context: x %}Hi{% endtranslate %}",
+    "{% assign x = 1e4299 | times: 10 %}{% translate count: x %}Hi{% plural %}His{% endtranslate %}{{ 'a' | t: x }}",
+]
+
+
+# the interpreter's stack as the competing bound: deep nesting in the source and in the data
+DEEP_CASES = [
+    {"template": "{% if true %}" * 2000 + "x" + "{% endif %}" * 2000, "data": {}},
+    {"template": "{% if " + "a and " * 900 + "a %}y{% endif %}", "data": {"a": True}},
+    {"template": "{% if " + "not " * 1500 + "a %}y{% endif %}", "data": {"a": True}},
+    {"template": "{{ " + "'${" * 400 + "x" + "}'" * 400 + " }}", "data": {"x": 1}},
+    {"template": "{{ " + "(" * 1500 + "a" + ")" * 1500 + " }}", "data": {"a": 1}},
+    {"template": "{{ x }}{{ x | join: ',' }}{{ x | json }}{% if x contains 1 %}{% endif %}",
+     "data": {"x": {"__deep_list__": 600}}},
+    {"template": "{% include 'defs' %}{% call m %}", "data": {},
+     "templates": {"defs": "{% macro m %}{% extends 'a' %}{% endmacro %}"}},
 ]
 
 
@@ -319,8 +349,9 @@ class C02(Prop):
         "SHA-1 of the whole case"
     )
     assumptions = [
-        "RecursionError is not reported (block nesting is bounded by the generator; Python's recursion limit "
-        "is not the subject)",
+        "RecursionError escaping from_string()/render()/render_async() IS reported (the library turns the interpreter's "
+        "stack limit into LiquidSyntaxError / ContextDepthError); deep-nesting seeds (2000 nested ifs, 500-term boolean "
+        "chains, 400 nested template strings, 600-deep lists) are enumerated",
         "time bound: only non-termination is detected (20 s watchdog, confirmed by 3 isolated 60 s re-runs)",
         "async renders are driven without an event loop (no awaiting loaders in this property)",
         "range literals in generated programs have small literal bounds: a loop or array whose size is the "
@@ -346,6 +377,11 @@ class C02(Prop):
             for k in range((ti % step), len(src), step):
                 yield {"kind": "text", "src": src[:k], "data": t.get("data") or {},
                        "templates": t.get("templates") or {}, "mode": "sync"}
+
+        for ti, t in enumerate(DEEP_CASES):
+            for mode in ("sync", "async"):
+                yield {"kind": "text", "src": t["template"], "data": t["data"], "templates": t.get("templates") or {},
+                       "mode": mode}
 
         for ni, name in enumerate(HOSTILE_NAMES):
             for loader in LOADERS:
@@ -443,11 +479,8 @@ class C02(Prop):
             self._check_error(err, res, "parse")
             res.labels.append("parse-error")
             return res
-        except RecursionError:
-            res.labels.append("recursion")
-            return res
-        except Exception as err:  # noqa: BLE001
-            res.fail("escape-parse", exc_bucket(err), f"{type(err).__name__}: {err} | src={src!r}")
+        except Exception as err:  # noqa: BLE001 - RecursionError included: parse() reports it as a syntax error
+            res.fail("escape-parse", exc_bucket(err), f"{type(err).__name__}: {err} | src={src[:300]!r}")
             return res
 
         try:
@@ -459,10 +492,8 @@ class C02(Prop):
         except LiquidError as err:
             self._check_error(err, res, "render")
             res.labels.append("render-error")
-        except RecursionError:
-            res.labels.append("recursion")
-        except Exception as err:  # noqa: BLE001
-            res.fail("escape-render", exc_bucket(err), f"{type(err).__name__}: {err} | src={src!r}")
+        except Exception as err:  # noqa: BLE001 - RecursionError included: render() reports it as ContextDepthError
+            res.fail("escape-render", exc_bucket(err), f"{type(err).__name__}: {err} | src={src[:300]!r}")
         return res
 
     def _check_load(self, case: Any, res: Result) -> Result:
